@@ -78,7 +78,8 @@ class Ctx:
         qual = getattr(func_or_qual, "qualname", func_or_qual)
         dem = getattr(self, "_demoted", {}).get(rule)
         if isinstance(dem, tuple):
-            dem = dem[0] if qual in dem[1] else None
+            by_, only_, keep_ = dem
+            dem = by_ if (only_ is None or qual in only_) and not any(str(key).startswith(k_) for k_ in keep_) else None
         if dem is not None:
             # a structural (idiom-bound, sufficient) rule that is not satisfied while the clause it supports was decided by
             # evaluation: recorded, not reported (see DESIGN 10.9)
@@ -105,13 +106,14 @@ class Ctx:
         self.instances.append((rule, instance or key, "violated", message))
         return f
 
-    def demote(self, rules, by, only_in=None):
+    def demote(self, rules, by, only_in=None, keep_keys=()):
         """Until restore(): violations of the given structural rules become notices (the clause was decided by `by`); with only_in,
-        only those located in the named functions."""
+        only those located in the named functions; findings whose key starts with one of keep_keys are reported as usual (clauses the
+        evaluation does not cover: all-inputs language rules, error conversion)."""
         prev = dict(getattr(self, "_demoted", {}))
         cur = dict(prev)
         for r in rules:
-            cur[r] = by if only_in is None else (by, set(only_in))
+            cur[r] = by if (only_in is None and not keep_keys) else (by, set(only_in) if only_in is not None else None, tuple(keep_keys))
         self._demoted = cur
         return prev
 
